@@ -13,7 +13,7 @@ DEFAULTS = dict(
     p_eventless=0.25, p_internal=0.2, p_guard=0.6, min_trans=2, max_trans=14,
     p_send=0.25, p_state_send=0.08, p_notify=0.3, delays=(0, 0, 0, 0.125, 1, 1, 2, 5),
     contracts=False, p_contract=0.5, timed=False, timed_plain=0.0, mode=None, priorities=(-1, 0, 0, 0, 1, 2),
-    min_states=3, root_basic_ok=0.05, allow_inner_history=False, p_shared_text=0.0, p_active_call=0.0, p_twin=0.0,
+    min_states=3, root_basic_ok=0.05, allow_inner_history=False, p_shared_text=0.0, p_active_call=0.0, p_twin=0.0, p_odd_names=0.0,
 )
 
 
@@ -84,7 +84,22 @@ class Tree:
         return bool(self.orth_ancestors(n))
 
 
-def _names(rnd, k):
+ODD = ['n{0}', '{k}', 'a}b', '{', '%s', 'x%(y)s', "q'r", 'sp ace', 'dot.ted', 'a:b', '#h', '{on,off}', 'split{}', '100%', 'back\\slash',
+       'n{0!r}', '$x', 'tab\tbed', 'é{è}', 'Wk', 'wk', 'WK', 'straße', 'STRASSE']
+
+
+def _names(rnd, k, p_odd=0.0):
+    if p_odd and rnd.random() < p_odd:
+        # names with characters that mean something to str.format / % / YAML / shells: a name is just a name
+        names = _names(rnd, k)
+        odd = rnd.sample(ODD, min(len(ODD), rnd.randint(3, 8)))
+        for i, o in enumerate(odd):
+            names[rnd.randrange(min(len(names), 14))] = o
+        out = []
+        for n in names:
+            if n not in out:
+                out.append(n)
+        return out + ['w%d' % i for i in range(k - len(out))]
     if rnd.random() < 0.15:
         # short names: single letters and pairs of letters (a name may be a substring / a character of another one)
         letters = rnd.sample(string.ascii_lowercase, 12)
@@ -125,7 +140,7 @@ def gen_chart(rnd, **kw):
 
 
 def _gen_structure(rnd, o):
-    names = iter(_names(rnd, 80))
+    names = iter(_names(rnd, 80, o.get('p_odd_names', 0.0)))
     st = {}
     order = []
 
@@ -351,15 +366,15 @@ def _gen_transitions(rnd, ch, o):
                         ev = rnd.choice(ch['events'])
                         mk(p, None, ev=ev, guard=False)
                         mk(rnd.choice(kids), None, ev=ev, guard=rnd.random() < 0.5)
-        if trans and o['p_twin'] and rnd.random() < o['p_twin']:
-            # an exact twin: a second, separately declared transition equal to an existing one in every field (same code
-            # text as well: 'code_id').  Two transitions are two transitions, however alike they look.
-            import copy as _copy
-            b = rnd.choice(trans)
-            d = _copy.deepcopy(b)
-            d['id'] = 't%d' % len(trans)
-            d['code_id'] = b.get('code_id') or b['id']
-            trans.append(d)
+    if trans and o['p_twin'] and rnd.random() < (o['p_twin'] if mode == 'clash' else o['p_twin'] / 3):
+        # an exact twin: a second, separately declared transition equal to an existing one in every field (same code
+        # text as well: 'code_id').  Two transitions are two transitions, however alike they look.
+        import copy as _copy
+        b = rnd.choice(trans)
+        d = _copy.deepcopy(b)
+        d['id'] = 't%d' % len(trans)
+        d['code_id'] = b.get('code_id') or b['id']
+        trans.append(d)
     # (d) orth: shared events between regions
     if mode in ('orth', 'order'):
         orths = [n for n in order if st[n]['kind'] == 'orthogonal']
